@@ -763,6 +763,50 @@ inline CircuitSpec genCoveredCircuit(uint32_t word) {
   return s;
 }
 
+/// Another degenerate but ordinary shape: rows cut into many short segments by fixed tap cells
+/// at a regular pitch (17..30 segments per row, several rows at the same pitch), with small
+/// movable cells between the taps and a few nets.  Pure function of word.
+inline CircuitSpec genCombCircuit(uint32_t word) {
+  using coloquinte::CellOrientation;
+  Tape w = expandTape((uint64_t)word ^ 0xC03BULL, 512);
+  CircuitSpec s;
+  static const int rhs[] = {1, 4, 10};
+  s.rowHeight = rhs[w.next() % 3];
+  int nr = 1 + (int)(w.next() % 4);
+  int nseg = 17 + (int)(w.next() % 14);
+  int pitch = 4 + (int)(w.next() % 6), tapW = 1 + (int)(w.next() % 2);
+  int W = nseg * pitch;
+  int ox = w.next() % 3 == 0 ? (int)(w.next() % 2000) - 1000 : 0, oy = w.next() % 3 == 0 ? (int)(w.next() % 2000) - 1000 : 0;
+  for (int r = 0; r < nr; ++r)
+    s.rows.emplace_back(ox, ox + W, oy + r * s.rowHeight, oy + (r + 1) * s.rowHeight, r % 2 ? CellOrientation::FS : CellOrientation::N);
+  for (int r = 0; r < nr; ++r)
+    for (int k = 1; k < nseg; ++k) {
+      CellSpec f;
+      f.fixed = true, f.obstruction = true, f.w = tapW, f.h = s.rowHeight;
+      f.x = ox + k * pitch, f.y = oy + r * s.rowHeight;
+      s.cells.push_back(f);
+    }
+  int nm = 2 + (int)(w.next() % 24);
+  std::vector<int> mov;
+  for (int i = 0; i < nm; ++i) {
+    CellSpec c;
+    c.w = 1 + (int)(w.next() % (uint32_t)std::max(1, pitch - tapW - 1));
+    c.h = s.rowHeight;
+    c.x = ox + (int)(w.next() % (uint32_t)W);
+    c.y = oy + (int)(w.next() % (uint32_t)nr) * s.rowHeight;
+    mov.push_back((int)s.cells.size());
+    s.cells.push_back(c);
+  }
+  for (int k = 0; k + 1 < nm && k < 12; ++k) {
+    NetSpec n;
+    n.cells = {mov[k], mov[(k + 1 + w.next() % 3) % nm]};
+    n.xo = {0, 0}, n.yo = {0, 0};
+    s.nets.push_back(n);
+  }
+  s.labels.insert("shape:rows-cut-into-17+-segments");
+  return s;
+}
+
 /// The rows of a circuit may be given in any order: reorder them (0: as generated, i.e. sorted
 /// by y then x; 1: reversed; 2: rotated; 3: deterministic shuffle).  Pure function of (s, word).
 inline const char *permuteRows(CircuitSpec &s, uint32_t word) {
